@@ -53,6 +53,20 @@ def one(mon: Monitor, rng: random.Random) -> None:
             return mon.skip("generator", "no common window")
         src, dst, place = pr
         kind, exact_grid = "cross|" + place, False
+    elif rng.random() < 0.06:
+        # unit pixels and a destination chunk whose corner is exactly the CRS origin (a 1 degree global grid south-east of (0, 0), a 1 m grid at the false origin):
+        # that chunk's own geotransform is (0, 1, 0, 0, 0, -1), which GDAL / rasterio take for "not georeferenced" (D35)
+        from odc.geo.geobox import GeoBox
+
+        cy_, cx_ = rng.choice([3, 5, 8]), rng.choice([4, 6, 9])
+        my_, mx_ = rng.randint(0, 2), rng.randint(0, 2)
+        crs_ = rng.choice(["EPSG:3857", "EPSG:4326", "EPSG:32633"])
+        dst = GeoBox((cy_ * rng.randint(my_ + 1, 4), cx_ * rng.randint(mx_ + 1, 4)), Affine(1.0, 0, -float(cx_ * mx_), 0, -1.0, float(cy_ * my_)), crs_)
+        rs_ = rng.choice([0.5, 1.0, 2.0, 0.25])
+        src = GeoBox((rng.randint(8, 36), rng.randint(8, 36)), Affine(rs_, 0, -rs_ * rng.randint(2, 12), 0, -rs_, rs_ * rng.randint(2, 12)), crs_)
+        if rng.random() < 0.3:
+            src, dst = dst, src  # the source block at the origin instead
+        kind, exact_grid, aligned_chunks = "same|unit-grid-at-origin", True, (cy_, cx_)
     elif rng.random() < 0.12:
         # same grid, destination a chunk-aligned window of the source (crop, or shifted off by whole chunks) with the source's own chunking:
         # every destination chunk then coincides with a source block - the case where "nothing to warp" shortcuts would apply
@@ -252,8 +266,9 @@ PINNED_SEEDS = [11, 22, 33]
 def run(mon: Monitor, tier: str, seed: int, shard: int, nshards: int) -> None:
     _orders.clear()
     rng = random.Random(seed * 1000 + shard + 13)
-    for _ in range(270 if tier == "quick" else 3500):
-        rs = rng.getrandbits(48)
+    todo = [random.Random(k).getrandbits(48) for k in range(40)] if shard == 0 else []  # fixed cases, the same for every seed (with the unit-grid-at-origin class among them)
+    for k in range((270 if tier == "quick" else 3500) + len(todo)):
+        rs = todo.pop() if todo else rng.getrandbits(48)
         mon.case = {"kind": "pair", "rs": rs}
         try:
             one(mon, random.Random(rs))
@@ -263,7 +278,7 @@ def run(mon: Monitor, tier: str, seed: int, shard: int, nshards: int) -> None:
     mon.obs["distinct_orders_sync"] = len({o for s, o in _orders if s == "sync"})
     mon.obs["distinct_orders_threads"] = len({o for s, o in _orders if s == "threads"})
     for pt, n in [("fill-rule", 150), ("chunked==whole", 60), ("fill-rule|same|far|all-outside", 5), ("fill-rule|cross|far|all-outside", 2), ("fill-rule|same|partial", 10), ("chunked==whole|same|subpix", 3),
-                  ("chunked==whole|same|mirror", 3), ("chunked==whole|same|scale", 3), ("fill-rule|cross|shift", 5), ("inside-rule", 40), ("joint-graph", 25), ("chunked==whole|same|chunk-aligned", 5), ("inside-rule|cross|global-source", 3)]:
+                  ("chunked==whole|same|mirror", 3), ("chunked==whole|same|scale", 3), ("fill-rule|cross|shift", 5), ("inside-rule", 40), ("joint-graph", 25), ("chunked==whole|same|chunk-aligned", 5), ("inside-rule|cross|global-source", 3)] + ([("chunked==whole|same|unit-grid-at-origin", 2)] if shard == 0 else []):
         mon.floor(pt, n)
 
 
